@@ -3,6 +3,7 @@ import BM.Sanitize
 import BM.Spec.Oracles
 import BM.Proofs.Rules
 import BM.Proofs.Switches
+import BM.Proofs.Tables2
 import BM.Props.BuilderPins
 /-
   C17: a policy is its rule set.  Proved on the builder model `applyOp`:
@@ -402,6 +403,102 @@ example :
     (applyOps d { initialized := true } h1).elsAndAttrs.contains b!"b" = true ∧
     (applyOps d { initialized := true } h2).elsAndAttrs.contains b!"a" = true := by
   refine ⟨?_, ?_, ?_, ?_⟩ <;> rfl
+
+/-! ### the pattern-scoped tables and the sets -/
+
+/-- the remaining tables, read as sets: rules and style rules bound to element patterns (keyed by
+    the identity of the compiled regexp), the pattern table, the two "allowed without attributes"
+    sets, the scheme patterns -/
+structure SameTables2 (p q : Policy) : Prop where
+  matchRules : ∀ r attr x, x ∈ p.matchRules r attr ↔ x ∈ q.matchRules r attr
+  hasPattern : ∀ r, p.hasPattern r ↔ q.hasPattern r
+  matchStyleRules : ∀ r prop x, x ∈ p.matchStyleRules r prop ↔ x ∈ q.matchStyleRules r prop
+  bareOK : ∀ el, p.bareOK el ↔ q.bareOK el
+  bareOKPattern : ∀ id, p.bareOKPattern id ↔ q.bareOKPattern id
+  schemePattern : ∀ id, p.schemePattern id ↔ q.schemePattern id
+
+/-- **C17, the remaining tables = start ∪ contributions**, for every history on an initialised policy -/
+theorem C17_rule_tables2 (p : Policy) (hi : p.initialized = true) (ops : List BuilderOp) :
+    (∀ r attr x, x ∈ (applyOps d p ops).matchRules r attr ↔
+        x ∈ p.matchRules r attr ∨ ∃ op ∈ ops, op.addsMatchRule r attr x) ∧
+    (∀ r, (applyOps d p ops).hasPattern r ↔ p.hasPattern r ∨ ∃ op ∈ ops, op.addsPattern r) ∧
+    (∀ r prop x, x ∈ (applyOps d p ops).matchStyleRules r prop ↔
+        x ∈ p.matchStyleRules r prop ∨ ∃ op ∈ ops, op.addsMatchStyle d r prop x) ∧
+    (∀ el, (applyOps d p ops).bareOK el ↔ p.bareOK el ∨ ∃ op ∈ ops, op.addsBareOK el) ∧
+    (∀ id, (applyOps d p ops).bareOKPattern id ↔ p.bareOKPattern id ∨ ∃ op ∈ ops, op.addsBareOKPattern id) ∧
+    (∀ id, (applyOps d p ops).schemePattern id ↔ p.schemePattern id ∨ ∃ op ∈ ops, op.addsSchemePattern id) :=
+  rules2_applyOps d p hi ops
+
+theorem sameTables2_of_same_calls (p : Policy) (hi : p.initialized = true) (ops₁ ops₂ : List BuilderOp)
+    (h : ∀ op, op ∈ ops₁ ↔ op ∈ ops₂) : SameTables2 (applyOps d p ops₁) (applyOps d p ops₂) := by
+  obtain ⟨a1, b1, c1, e1, f1, g1⟩ := rules2_applyOps d p hi ops₁
+  obtain ⟨a2, b2, c2, e2, f2, g2⟩ := rules2_applyOps d p hi ops₂
+  have hex : ∀ Q : BuilderOp → Prop, (∃ op ∈ ops₁, Q op) ↔ (∃ op ∈ ops₂, Q op) := by
+    intro Q
+    constructor
+    · rintro ⟨op, hm, hq⟩; exact ⟨op, (h op).mp hm, hq⟩
+    · rintro ⟨op, hm, hq⟩; exact ⟨op, (h op).mpr hm, hq⟩
+  constructor
+  · intro r attr x; rw [a1, a2, hex]
+  · intro r; rw [b1, b2, hex]
+  · intro r prop x; rw [c1, c2, hex]
+  · intro el; rw [e1, e2, hex]
+  · intro id; rw [f1, f2, hex]
+  · intro id; rw [g1, g2, hex]
+
+/-- **C17, order independence of the pattern-scoped tables and the sets** -/
+theorem C17_order_independent2 (p : Policy) (hi : p.initialized = true) (ops₁ ops₂ : List BuilderOp)
+    (h : ops₁.Perm ops₂) : SameTables2 (applyOps d p ops₁) (applyOps d p ops₂) :=
+  sameTables2_of_same_calls d p hi ops₁ ops₂ (fun _ => h.mem_iff)
+
+theorem respell_adds2 (f : Bytes → Bytes) (hf : ∀ n, toLowerName (f n) = toLowerName n) (op : BuilderOp) :
+    (∀ r attr x, (respell f op).addsMatchRule r attr x ↔ op.addsMatchRule r attr x) ∧
+    (∀ r, (respell f op).addsPattern r ↔ op.addsPattern r) ∧
+    (∀ r prop x, (respell f op).addsMatchStyle d r prop x ↔ op.addsMatchStyle d r prop x) ∧
+    (∀ el, (respell f op).addsBareOK el ↔ op.addsBareOK el) ∧
+    (∀ id, (respell f op).addsBareOKPattern id ↔ op.addsBareOKPattern id) ∧
+    (∀ id, (respell f op).addsSchemePattern id ↔ op.addsSchemePattern id) := by
+  have hm := map_lower_respell f hf
+  cases op with
+  | allowAttrs names re ae scope =>
+    cases scope with
+    | onElements els =>
+      refine ⟨fun _ _ _ => Iff.rfl, fun _ => Iff.rfl, fun _ _ _ => Iff.rfl, ?_, fun _ => Iff.rfl, fun _ => Iff.rfl⟩
+      intro el; simp only [respell, BuilderOp.addsBareOK, hm]
+    | onElementsMatching r' =>
+      refine ⟨?_, ?_, fun _ _ _ => Iff.rfl, fun _ => Iff.rfl, fun _ => Iff.rfl, fun _ => Iff.rfl⟩
+      · intro r attr x; simp only [respell, BuilderOp.addsMatchRule, hm]
+      · intro r; simp only [respell, BuilderOp.addsPattern, respell_ne_nil]
+    | globally => exact ⟨fun _ _ _ => Iff.rfl, fun _ => Iff.rfl, fun _ _ _ => Iff.rfl, fun _ => Iff.rfl, fun _ => Iff.rfl, fun _ => Iff.rfl⟩
+  | allowStyles names m scope =>
+    cases scope with
+    | onElements els => exact ⟨fun _ _ _ => Iff.rfl, fun _ => Iff.rfl, fun _ _ _ => Iff.rfl, fun _ => Iff.rfl, fun _ => Iff.rfl, fun _ => Iff.rfl⟩
+    | onElementsMatching r' =>
+      refine ⟨fun _ _ _ => Iff.rfl, fun _ => Iff.rfl, ?_, fun _ => Iff.rfl, fun _ => Iff.rfl, fun _ => Iff.rfl⟩
+      intro r prop x; simp only [respell, BuilderOp.addsMatchStyle, hm]
+    | globally => exact ⟨fun _ _ _ => Iff.rfl, fun _ => Iff.rfl, fun _ _ _ => Iff.rfl, fun _ => Iff.rfl, fun _ => Iff.rfl, fun _ => Iff.rfl⟩
+  | _ => exact ⟨fun _ _ _ => Iff.rfl, fun _ => Iff.rfl, fun _ _ _ => Iff.rfl, fun _ => Iff.rfl, fun _ => Iff.rfl, fun _ => Iff.rfl⟩
+
+/-- **C17, case independence of the pattern-scoped tables and the sets** -/
+theorem C17_case_independent2 (f : Bytes → Bytes) (hf : ∀ n, toLowerName (f n) = toLowerName n)
+    (p : Policy) (hi : p.initialized = true) (ops : List BuilderOp) :
+    SameTables2 (applyOps d p (ops.map (respell f))) (applyOps d p ops) := by
+  obtain ⟨a1, b1, c1, e1, f1, g1⟩ := rules2_applyOps d p hi (ops.map (respell f))
+  obtain ⟨a2, b2, c2, e2, f2, g2⟩ := rules2_applyOps d p hi ops
+  have hex : ∀ (Q Q' : BuilderOp → Prop), (∀ op, Q' (respell f op) ↔ Q op) →
+      ((∃ op ∈ ops.map (respell f), Q' op) ↔ (∃ op ∈ ops, Q op)) := by
+    intro Q Q' hq
+    simp only [List.mem_map]
+    constructor
+    · rintro ⟨_, ⟨op, hm, rfl⟩, h⟩; exact ⟨op, hm, (hq op).mp h⟩
+    · rintro ⟨op, hm, h⟩; exact ⟨_, ⟨op, hm, rfl⟩, (hq op).mpr h⟩
+  constructor
+  · intro r attr x; rw [a1, a2, hex _ _ (fun op => (respell_adds2 d f hf op).1 r attr x)]
+  · intro r; rw [b1, b2, hex _ _ (fun op => (respell_adds2 d f hf op).2.1 r)]
+  · intro r prop x; rw [c1, c2, hex _ _ (fun op => (respell_adds2 d f hf op).2.2.1 r prop x)]
+  · intro el; rw [e1, e2, hex _ _ (fun op => (respell_adds2 d f hf op).2.2.2.1 el)]
+  · intro id; rw [f1, f2, hex _ _ (fun op => (respell_adds2 d f hf op).2.2.2.2.1 id)]
+  · intro id; rw [g1, g2, hex _ _ (fun op => (respell_adds2 d f hf op).2.2.2.2.2 id)]
 
 /-! ### switch-like options -/
 
